@@ -1,7 +1,7 @@
 (* C09: which base elements / subtotals occur in a display order (all collators). *)
 From Coq Require Import List Sorting Permutation ZArith String Bool Lia Arith.
 From CC Require Import Base.XQ Base.SortX Spec.OrderSpec Model.Collator
-  Proofs.OrderCollate Proofs.OrderExplicit Proofs.OrderIds.
+  Proofs.OrderCollate Proofs.OrderExplicit Proofs.OrderIds Proofs.SbvDedup.
 Import ListNotations.
 Local Open Scope nat_scope.
 
@@ -286,7 +286,7 @@ Theorem sbv_visible_iff d s vals svals empties i :
   (In (Z.of_nat i) (sbv_display d s vals svals empties) <->
    i < List.length (d_elems d) /\ ~ In i (collator_hidden d empties)).
 Proof.
-  intros L. unfold sbv_display. rewrite displayed_in, visible_nat, sbv_concat_in.
+  intros L. unfold sbv_display. rewrite first_mentions_in, displayed_in, visible_nat, sbv_concat_in.
   assert (Lid : List.length (d_ids d) = List.length (d_elems d))
     by (unfold d_ids; apply map_length).
   rewrite subtotal_idxs_in, body_idxs_in, L.
@@ -308,7 +308,7 @@ Theorem sbv_subtotals_all_shown d s vals svals empties z :
   (In z (sbv_display d s vals svals empties) <-> (- Z.of_nat (List.length svals) <= z)%Z).
 Proof.
   intros Hz. unfold sbv_display.
-  rewrite displayed_in, (visible_neg _ z Hz), sbv_concat_in, subtotal_idxs_in, !in_map_iff.
+  rewrite first_mentions_in, displayed_in, (visible_neg _ z Hz), sbv_concat_in, subtotal_idxs_in, !in_map_iff.
   split.
   - intros [[H|[H|[H|H]]] _]; try lia.
     + destruct H as (k & E & _). lia.
